@@ -27,9 +27,14 @@ def graphIsomorphism (G1 G2 : SimpleG) : Formula :=
     cons := forceComplete 1 G1.n G2.n ++ forceSurjective 1 G1.n G2.n ++
             forceFunctional 1 G1.n G2.n ++ forceInjective 1 G1.n G2.n ++ isoEdgeCons G1 G2 }
 
-/-- `GraphIsomorphism(G1, G2, nontrivial)`: the documented option "forbid identical mapping" is accepted and
-never read (defect D36) — the formula is the same for both values -/
-def graphIsomorphismOpt (G1 G2 : SimpleG) (_nontrivial : Bool) : Formula := graphIsomorphism G1 G2
+/-- the clause added by the option `nontrivial`: `[-f(u, u) for u in f.domain() if u <= G2.order()]` -/
+def notIdentityClause (n1 n2 : Nat) : Con :=
+  .clause (((verts n1).filter (fun u => u ≤ n2)).map (fun u => -(mlit 1 n2 u u)))
+
+/-- `GraphIsomorphism(G1, G2, nontrivial)`: with the option, one more clause forbids the identical mapping -/
+def graphIsomorphismOpt (G1 G2 : SimpleG) (nontrivial : Bool) : Formula :=
+  { nvars := G1.n * G2.n
+    cons := (graphIsomorphism G1 G2).cons ++ (if nontrivial then [notIdentityClause G1.n G2.n] else []) }
 
 /-- `GraphAutomorphism(G)`: the isomorphism formula of `G` with itself plus one clause
 that excludes the identity -/
